@@ -2,6 +2,7 @@ package main
 
 import (
 	"fmt"
+	"go/token"
 	"go/types"
 	"strings"
 
@@ -240,6 +241,37 @@ func ruleC02WaitAll(c *Ctx) {
 				c.OK(rule, key+" | records error in slot[index]", c.P.InstrPos(ops[0]), "on err!=nil the error is stored at errs[index] (index = goroutine parameter)", true)
 			} else {
 				c.Bad(rule, key+" | records error in slot[index]", c.P.InstrPos(ops[0]), "a path from the err!=nil edge to the goroutine's exit does not store the error at errs[index]", c.witness(ws[0]))
+			}
+			// ... and the only way past the recording is the call's own error being nil: an error that
+			// is filtered, translated or reset before the test is a failed replica that is never named
+			strictNil := func(b *ssa.BasicBlock, k int) bool {
+				if len(b.Instrs) == 0 {
+					return false
+				}
+				iff, ok := b.Instrs[len(b.Instrs)-1].(*ssa.If)
+				if !ok {
+					return false
+				}
+				bo, ok := iff.Cond.(*ssa.BinOp)
+				if !ok || (bo.Op != token.EQL && bo.Op != token.NEQ) {
+					return false
+				}
+				var x ssa.Value
+				if isNilConst(bo.Y) {
+					x = bo.X
+				} else if isNilConst(bo.X) {
+					x = bo.Y
+				}
+				if x == nil || strip(x) != strip(ev) {
+					return false
+				}
+				return (bo.Op == token.EQL) == (k == 0)
+			}
+			ws = Query{Fn: cl, Start: ops[0], IsSite: func(in ssa.Instruction) bool { _, ok := in.(*ssa.Return); return ok }, Gen: recorded, GenEdge: strictNil}.Run()
+			if len(ws) == 0 {
+				c.OK(rule, key+" | every error of the call is recorded", c.P.InstrPos(ops[0]), "the goroutine ends without recording only on the edge err == nil of the call's own error", true)
+			} else {
+				c.Bad(rule, key+" | every error of the call is recorded", c.P.InstrPos(ops[0]), "the goroutine can end without recording although the call's error was not found nil (the error is filtered or reset before it is tested): the replica that failed is never named", c.witness(ws[0]))
 			}
 			// flag
 			flagName := ""
